@@ -65,3 +65,15 @@ seqobj = list
 seqstr = list
 seqbytes = list
 intset = frozenset
+
+
+def nil_obj():
+    return []
+
+
+def cons_obj(x, rest):
+    return [x] + list(rest)
+
+
+def cat_obj(a, b):
+    return list(a) + list(b)
